@@ -63,7 +63,9 @@ def prove(assumptions, goal, opts):
     STATS['z3_secs'] += dt
     if r == z3.unsat:
         if opts.get('double_check'):
-            v2 = _cvc5(s, opts)
+            # cross-check of a proved obligation by the second back end: bounded at 10 s per obligation (z3 has decided it; a
+            # cvc5 time-out is no disagreement), so that the thorough tier stays within minutes for the 3000-obligation checks
+            v2 = _cvc5(s, dict(opts, timeout_ms=min(int(opts.get('timeout_ms', 10000)), 10000)))
             if v2 == 'sat':
                 return 'unknown', 'z3:unsat/cvc5:sat', time.time() - t0, None
         return 'unsat', 'z3', dt, None
